@@ -789,7 +789,8 @@ order of `Generated.C16.endpoints`; `some d` — the description read from the s
 `Option`-ness, serde name, `flatten`; method, authentication and history from the `METADATA`
 constant), with the identity codecs —, or `none` when the endpoint has no macro-generated
 conversions or the parser does not understand its definition (`Generated.C16.realOutside`; nothing
-is claimed for those). None of the predicates decided below looks at a codec. -/
+is claimed for those). None of the predicates decided below looks at a codec
+(`real_endpoint_codecs_irrelevant`). -/
 
 /-- Every real endpoint with a description: `#[request]` / `#[response]` accept it
 (`macroAccepts`), the generated `#[test]`s pass (`testsPass`: path fields are the placeholders in
@@ -845,6 +846,23 @@ theorem g17_free_himp (d : ReqDesc) (v : ReqVal) (sat : SendAccessToken) (p : Re
       ∀ f, (f, none) ∈ p.headerFields.zip w.header → f.header ≠ contentType) :=
   ⟨g17_free_himp' d v sat, respG17_free_himp' p w⟩
 
+/-- None of these predicates looks at a codec: they are functions of the ERASED description (every
+codec replaced by the one that rejects everything — what is left is what the macro sees). So a
+description `d` of a real endpoint with the true codecs of its field types, whatever they are,
+satisfies `macroAccepts`, `testsPass`, `inModel`, the header-name `Nodup` and has the G17 shape
+exactly when the extracted description `g` with the identity codecs does (`d.erase = g.erase`:
+same method, authentication, history, and field by field the same name, kind, header constant and
+`Option`-ness). Stated for requests; the response predicates are built the same way. -/
+theorem real_endpoint_codecs_irrelevant (d g : ReqDesc) (h : d.erase = g.erase) :
+    d.macroAccepts = g.macroAccepts ∧ d.testsPass = g.testsPass ∧ d.inModel = g.inModel
+    ∧ d.g17Fields = g.g17Fields
+    ∧ d.headerFields.map (·.header) = g.headerFields.map (·.header) ∧ d.history = g.history := by
+  obtain ⟨a1, a2, a3, a4, a5, a6⟩ := erase_invariant d
+  obtain ⟨b1, b2, b3, b4, b5, b6⟩ := erase_invariant g
+  rw [h] at a1 a2 a3 a4 a5 a6
+  exact ⟨a1.trans b1.symm, a2.trans b2.symm, a3.trans b3.symm, a4.trans b4.symm, a5.trans b5.symm,
+    a6.trans b6.symm⟩
+
 #print axioms generated_histories_valid
 #print axioms selectPath_spec
 #print axioms spec_select_is_the_rule
@@ -882,5 +900,6 @@ theorem g17_free_himp (d : ReqDesc) (v : ReqVal) (sat : SendAccessToken) (p : Re
 #print axioms real_flatten_endpoints
 #print axioms real_g17_endpoints
 #print axioms g17_free_himp
+#print axioms real_endpoint_codecs_irrelevant
 
 end Ruma.Props.C16
